@@ -215,3 +215,44 @@ Proof.
     + exact (switch_rejects now cfg a s file recs d t e S Hd Ht (Hvt t eq_refl) Hnb Ha).
     + injection Ha as <-. unfold exec_simple. rewrite Hd. cbn [of_outcome cbind]. rewrite Ht. reflexivity.
 Qed.
+
+(* ---------------------------------------------------------------- why the guards of C04 are there: two witnesses *)
+
+Definition records_of (o : outcome parse_result) : option (list record) :=
+  match o with Ok (Parsed rs _) => Some rs | _ => None end.
+
+Definition w_now : Commands.clock := {| now_date := {| c_year := 2020; c_month := 1; c_day := 1 |}; now_h := 9; now_m := 30 |}.
+Definition w_cfg : config := {| cfg_round := None; cfg_should := None; cfg_dashes := None; cfg_24h := None |}.
+Definition w_args : at_args := {| a_date := DDefault; a_time := None; a_round := None |}.
+
+(* [last_line_safe]: a file whose last line lacks its newline and ends in a carriage return. `track` gives that line a
+   bare LF; CR LF then reads as the line ending, and the summary of the EXISTING entry loses its last character *)
+Definition w_file_cr : bytes := b!"2020-01-01
+  1h foo" ++ [13%N].
+
+Lemma last_line_cr_witness :
+  exists file', exec_simple w_now w_cfg (Track DDefault [b!"2h"]) w_file_cr = COk file' /\
+    option_map (map (fun r => map e_summary (rec_entries r))) (records_of (parse_text w_file_cr)) = Some [[[b!"foo" ++ [13%N]]]] /\
+    option_map (map (fun r => map e_summary (rec_entries r))) (records_of (parse_text file')) = Some [[[b!"foo"]; [[]]]].
+Proof. eexists. split; [vm_compute; reflexivity|]. split; vm_compute; reflexivity. Qed.
+
+(* [open_entry_ok]: two files that parse to the SAME records - an open range with and without a blank after the
+   placeholder - on which the same `stop --summary x` yields DIFFERENT records: no model on parsed records can be exact *)
+Definition w_file_blank : bytes := b!"2020-01-01
+  8:00 - ? 
+".
+Definition w_file_noblank : bytes := b!"2020-01-01
+  8:00 - ?
+".
+
+Lemma trailing_blank_witness :
+  records_of (parse_text w_file_blank) = records_of (parse_text w_file_noblank) /\
+  records_of (parse_text w_file_blank) <> None /\
+  exists f1 f2, exec_simple w_now w_cfg (Stop w_args (Some [b!"x"])) w_file_blank = COk f1 /\
+                exec_simple w_now w_cfg (Stop w_args (Some [b!"x"])) w_file_noblank = COk f2 /\
+                option_map (map (fun r => map e_summary (rec_entries r))) (records_of (parse_text f1)) = Some [[[b!" x"]]] /\
+                option_map (map (fun r => map e_summary (rec_entries r))) (records_of (parse_text f2)) = Some [[[b!"x"]]].
+Proof.
+  split; [vm_compute; reflexivity|]. split; [vm_compute; discriminate|].
+  eexists; eexists. split; [vm_compute; reflexivity|]. split; [vm_compute; reflexivity|]. split; vm_compute; reflexivity.
+Qed.
